@@ -223,6 +223,8 @@ pub struct Printed {
     /// token: the name of a parameter without `ref` (those comments are the parameter's doc
     /// comments, consumed by the declaration before the identifier is parsed)
     pub no_lead: Vec<usize>,
+    /// indexes into `spans` of block statements that are the branch of an if / while
+    pub branch_blocks: Vec<usize>,
 }
 
 #[derive(Clone, Debug)]
@@ -461,6 +463,7 @@ impl P {
 
     fn branch(&mut self, s: &RStmt) {
         if matches!(s, RStmt::Block(_)) {
+            self.out.branch_blocks.push(self.out.spans.len());
             self.stmt(s);
         } else {
             self.level += 1;
